@@ -1733,7 +1733,7 @@ fn make_subject(root: &Op, cx: &mut Cx) -> Option<Box<dyn Subject>> {
     Some(match root.k {
         K::Xsdt | K::Mcfg | K::Madt | K::Srat | K::Hmat | K::Pptt | K::Rhct | K::Rimt | K::Viot | K::Cedt | K::Hest | K::Rqsc => Box::new(TableSubj::new(root)),
         K::Slit => {
-            let n = (root.arg(2) % 301) as usize;
+            let n = (root.arg(2) % 1025) as usize;
             Box::new(SlitSubj { t: slit::SLIT::new(a, b, c, n as u32), n, m: vec![10; n * n], last_img: None, touched: vec![0; n * n], lost: false })
         }
         K::SysLocSubj => {
